@@ -100,7 +100,16 @@ def snapshot(T, obj, sch=None):
         isv = bool(obj.isValue)
     except Exception as e:
         isv = 'raises:' + type(e).__name__
-    return (content, isv, type_desc(obj), repr(obj.tagSet), repr(getattr(obj, 'subtypeSpec', None)), presence(T, obj))
+    derived = ''
+    if isinstance(obj, _base.SimpleAsn1Type):
+        # (what objects made from this one inherit: clone() without arguments of a value is the object itself, so ask for a copy
+        # with the same initialiser - it must carry the same tags and constraints)
+        try:
+            c = obj.clone(obj._value) if isv is True else obj.clone()
+            derived = repr(c.tagSet) + repr(c.subtypeSpec)
+        except Exception as e:
+            derived = 'raises:' + type(e).__name__
+    return (content, isv, type_desc(obj), repr(obj.tagSet) + derived, repr(getattr(obj, 'subtypeSpec', None)), presence(T, obj))
 
 
 def enc_outcome(fn):
@@ -260,6 +269,20 @@ def _native(obj):
         return 'raises:' + type(e).__name__
 
 
+def strip_defaults(T, py):
+    """The Python tree without the keys of DEFAULT members (they may simply be left out of a mapping)."""
+    k = T['k']
+    if k in ir.RECORD_KINDS and hasattr(py, 'items'):
+        by = {c['name']: c for c in T['comps']}
+        return type(py)((n, strip_defaults(by[n]['t'], x)) for n, x in py.items() if n in by and by[n]['p'] != 'def')
+    if k in ir.OF_KINDS and isinstance(py, (list, tuple)):
+        return [strip_defaults(T['of'], x) for x in py]
+    if k == 'CHOICE' and hasattr(py, 'items'):
+        by = {a['name']: a['t'] for a in T['alts']}
+        return type(py)((n, strip_defaults(by[n], x) if n in by else x) for n, x in py.items())
+    return py
+
+
 def mutate_all(T, obj):
     """Change every mutable node of a decoded result (used to show that results share nothing)."""
     try:
@@ -394,6 +417,25 @@ def _run_case(case):
                 if snapshot(T, sch) != t0:
                     F('decode-shares', codec, 'mutating a decoded result changed the guiding type | %s' % desc[i])
                     t0 = snapshot(T, sch)
+    # ---- (2n) the same for the native decoder, given mappings from which the DEFAULT members are simply missing
+    for i, (T, v) in enumerate(items):
+        sch = pool.sch[i]
+        py = pool.py[i]
+        if py is None or 'ANY' in ir.kinds_in(T):
+            continue
+        py2 = strip_defaults(T, py)
+        t0 = snapshot(T, sch)
+        try:
+            n1, n2 = ndec.decode(py2, asn1Spec=sch), ndec.decode(py2, asn1Spec=sch)
+        except Exception:
+            continue
+        before, nat0 = snapshot(T, n2, sch), _native(n2)
+        mutate_all(T, n1)
+        if snapshot(T, n2, sch) != before or _native(n2) != nat0:
+            F('decode-shares', 'native', 'mutating one result of native.decode (DEFAULT members read and emptied) changed another one: %s -> %s | %s' % (
+                nat0[:80], _native(n2)[:80], desc[i]), sig='defaults')
+        if snapshot(T, sch) != t0:
+            F('decode-shares', 'native', 'mutating a result of native.decode changed the guiding type | %s' % desc[i], sig='schema')
     # ---- (2c) results of decoding WITHOUT a guiding type share no object with each other either (nor with the decoder's prototypes)
     for i, (T, v) in enumerate(items):
         if any(m == 'I' for t in fz.type_nodes(T) for m, _c, _n in t.get('tags', ())) or 'ANY' in ir.kinds_in(T):
@@ -440,10 +482,17 @@ def _run_case(case):
                 n, name, i, str(r)[:90], str(baseline[(name, i, arg)])[:90], desc[i]))
     dbg_pool = Pool(items)
     for n, (name, i, arg) in enumerate(hist):
+        T_i = items[i][0]
+        s0 = (snapshot(T_i, dbg_pool.obj[i], dbg_pool.sch[i]), snapshot(T_i, dbg_pool.sch[i]))
         r = with_debug(lambda: dbg_pool.call(name, i, arg))
+        s1 = (snapshot(T_i, dbg_pool.obj[i], dbg_pool.sch[i]), snapshot(T_i, dbg_pool.sch[i]))
         if r != baseline[(name, i, arg)]:
             F('debug', name, 'call %s on pool[%d] returns %s with debug logging on, %s with it off | %s' % (
                 name, i, str(r)[:90], str(baseline[(name, i, arg)])[:90], desc[i]))
+        if s1 != s0:
+            F('debug-mutates', name, 'with debug logging on, %s changed the %s it was given: %s -> %s | %s' % (
+                name, 'value' if s1[0] != s0[0] else 'guiding type', str(s0[0] if s1[0] != s0[0] else s0[1])[:100],
+                str(s1[0] if s1[0] != s0[0] else s1[1])[:100], desc[i]))
     # ---- (4) interleaved suspended streaming decoders
     il = case.get('interleave')
     if il:
@@ -461,6 +510,9 @@ def _run_case(case):
                 errs.append(e)
         old = sys.getswitchinterval()
         sys.setswitchinterval(1e-6)
+        dbg_on = len(hist) % 2 == 0          # half of the threaded runs have debug logging switched on as well
+        if dbg_on:
+            debug.setLogger(debug.Debug('all', printer=NullPrinter()))
         try:
             ths = [threading.Thread(target=work, args=(k,)) for k in range(4)]
             for t in ths:
@@ -469,6 +521,10 @@ def _run_case(case):
                 t.join(60)
         finally:
             sys.setswitchinterval(old)
+            if dbg_on:
+                debug.setLogger(None)
+        for e_ in errs[:1]:
+            F('threads', 'leak', 'a worker thread%s died with %s' % (' (debug logging on)' if dbg_on else '', harness.exc_sig(e_)), harness.exc_sig(e_))
         want = [baseline[(name, i, arg)] for name, i, arg in hist]
         for k in range(4):
             if results[k] is not None and results[k] != want:
